@@ -83,7 +83,9 @@ type Person struct {
 	Places StrSet         `json:"places"`
 	Peers  StrSet         `json:"peers"`
 	Tags   map[string]Val `json:"tags,omitempty"`
-	NoTags bool           `json:"noTags,omitempty"` // no tags bucket at all
+	// SubTags are stored one level deeper, under tags/sub/<key> (nested map elements, symbol tags.sub.<key>)
+	SubTags map[string]Val `json:"subTags,omitempty"`
+	NoTags  bool           `json:"noTags,omitempty"` // no tags bucket at all
 }
 
 type Place struct {
@@ -250,6 +252,20 @@ func (s *ScanSchema) Write(db *bbolt.DB, d *Dataset) error {
 				sort.Strings(keys)
 				for _, k := range keys {
 					setVal(tb, k, pe.Tags[k])
+				}
+				if len(pe.SubTags) > 0 {
+					sb := tb.GetOrCreatePath("sub")
+					skeys := make([]string, 0, len(pe.SubTags))
+					for k := range pe.SubTags {
+						skeys = append(skeys, k)
+					}
+					sort.Strings(skeys)
+					for _, k := range skeys {
+						setVal(sb, k, pe.SubTags[k])
+					}
+					if sb.HasError() {
+						return sb.GetError()
+					}
 				}
 				if tb.HasError() {
 					return tb.GetError()
